@@ -236,3 +236,100 @@ def shnum_pair(prog):
     obs.append(Ob('SHNUM-PAIR', files[0], shdr[None][0]['l'], 'write_elf', 'common-headers', DISCHARGED, '',
                   '%d write_shdr calls are not CPU specific' % len(shdr[None]), False))
     return RuleResult('SHNUM-PAIR', obs, 2, {})
+
+
+def patch_width(prog):
+    """PATCH-WIDTH: a header field that the ELF writer reserves (`elf->X_offset = file.tell(); file.write_intN(0)`) and
+    fills in later (`file.set(elf.X_offset); file.write_intM(v)` or `file.write_intM_at_offset(v, elf.X_offset)`) is
+    filled with the width it was reserved with, in each ELF class: a 32-bit patch of a 64-bit field leaves the other half
+    zero, which is the high half of the value in a little-endian file and the *low* half in a big-endian one
+    (e_shoff = offset << 32: no section can be found)."""
+    fns = [f for f in prog.fns.values() if f.file == 'fileio/write_elf.cpp' and f.blocks]
+    W = {'FileIo::write_int8': 8, 'FileIo::write_int16': 16, 'FileIo::write_int32': 32, 'FileIo::write_int64': 64}
+    WA = {'FileIo::write_int32_at_offset': 32, 'FileIo::write_int64_at_offset': 64, 'FileIo::write_int16_at_offset': 16}
+
+    def cls_of(fn, n):
+        """{32, 64}, {32} or {64}: ELF classes under which statement n runs (tests of EI_CLASS)."""
+        out = {32, 64}
+        p = fn.parent.get(n['i'])
+        child = n
+        while p is not None:
+            if p['k'] == 'IfStmt':
+                ks = [x for x in kids(p) if x is not None]
+                ctext = show(strip(ks[0]))
+                if 'e_ident' in ctext or 'EI_CLASS' in ctext or 'is_32' in ctext:
+                    c = strip(ks[0])
+                    v = None
+                    if c['k'] == 'BinaryOperator' and c.get('op') in ('==', '!='):
+                        v = const(kids(c)[1])
+                    in_then = len(ks) > 1 and any(x['i'] == child['i'] for x in walk(ks[1]))
+                    if v is not None:
+                        eq32 = (v == 1) if c['op'] == '==' else (v != 1)
+                        out &= ({32} if eq32 else {64}) if in_then else ({64} if eq32 else {32})
+            child = p
+            p = fn.parent.get(p['i'])
+        return out
+
+    def field_of(n):
+        s = strip(n, casts=True)
+        return s.get('n') if s['k'] == 'MemberExpr' and s.get('n', '').endswith('_offset') else None
+
+    reserve = {}
+    patches = {}
+    for fn in fns:
+        for n in sorted(fn.nodes.values(), key=lambda x: x['i']):
+            if n['k'] == 'BinaryOperator' and n.get('op') == '=' and field_of(kids(n)[0]) and \
+                    (callee(strip(kids(n)[1], casts=True)) or '').split('(')[0] == 'FileIo::tell':
+                f = field_of(kids(n)[0])
+                p = fn.parent.get(n['i'])
+                sibs = [x for x in kids(p) if x is not None]
+                nxt = sibs[sibs.index(n) + 1] if n in sibs and sibs.index(n) + 1 < len(sibs) else None
+                w = W.get((callee(strip(nxt)) or '').split('(')[0]) if nxt is not None else None
+                if w:
+                    for c in cls_of(fn, n):
+                        reserve[(f, c)] = (w, n)
+            q = (callee(n) or '').split('(')[0] if n['k'] in ('CallExpr', 'CXXMemberCallExpr') else None
+            if q in WA and len(call_args(n)) >= 2 and field_of(call_args(n)[1]):
+                for c in cls_of(fn, n):
+                    patches.setdefault((field_of(call_args(n)[1]), c), []).append((WA[q], n))
+            if q == 'FileIo::set' and call_args(n) and field_of(call_args(n)[0]):
+                f = field_of(call_args(n)[0])
+                p = fn.parent.get(n['i'])
+                while p is not None and p['k'] not in ('CompoundStmt',):
+                    p = fn.parent.get(p['i'])
+                sibs = [x for x in kids(p) if x is not None] if p is not None else []
+                idx = [i for i, x in enumerate(sibs) if any(y['i'] == n['i'] for y in walk(x))]
+                if idx:
+                    # the write(s) that follow, up to the next seek
+                    for x in sibs[idx[0] + 1:]:
+                        stop = False
+                        for y in walk(x):
+                            qq = (callee(y) or '').split('(')[0] if y['k'] in ('CallExpr', 'CXXMemberCallExpr') else None
+                            if qq == 'FileIo::set':
+                                stop = True
+                                break
+                            if qq in W:
+                                for c in cls_of(fn, y) & cls_of(fn, n):
+                                    if (f, c, 'first') not in patches:
+                                        patches[(f, c, 'first')] = True
+                                        patches.setdefault((f, c), []).append((W[qq], y))
+                        if stop:
+                            break
+    if not reserve:
+        raise AnalysisBroken('PATCH-WIDTH: no reserved header field found in fileio/write_elf.cpp')
+    obs = []
+    for (f, c), (w, n) in sorted(reserve.items()):
+        ps = patches.get((f, c), [])
+        if not ps:
+            obs.append(Ob('PATCH-WIDTH', 'fileio/write_elf.cpp', n['l'], 'write_elf', '%s:ELF%d' % (f, c), OBSERVATION,
+                          'reserved with %d bits, no patch recognised' % w))
+            continue
+        for (pw, pn) in ps:
+            ok = pw == w
+            obs.append(Ob('PATCH-WIDTH', 'fileio/write_elf.cpp', pn['l'], 'write_elf', '%s:ELF%d' % (f, c),
+                          DISCHARGED if ok else VIOLATED,
+                          '' if ok else 'in an ELF%d file the field at %s is reserved with write_int%d (line %d) but filled in with a %d-bit '
+                          'write: half of the field keeps its placeholder, and in a big-endian file that is the half that holds the '
+                          'value' % (c, f, w, n['l'], pw),
+                          'reserved %d bits, patched with %d bits' % (w, pw), False))
+    return RuleResult('PATCH-WIDTH', obs, 2, {})
